@@ -1,90 +1,86 @@
 import Percival.Model.Strto
 import Percival.Spec.FloatNumeral
+import Percival.Spec.Ieee
 /-!
 # Model of libc `strtod` (ISO C 2011 §7.22.1.3) and of IEEE-754 rounding — C16
 
-**Modelled, not verified** (trusted base, validated by the correspondence run): the subject
-sequence of `strtod` (decimal and hexadecimal floating numerals, `inf`/`infinity`, `nan`,
-`nan(n-char-sequence)`, all case-insensitive), its exact rational value, and round-to-nearest-even
-to binary64 (and from binary64 to binary32 for `float` targets, as the C assignment does).
+**Modelled** (validated by the correspondence run): the subject sequence of `strtod` (decimal and
+hexadecimal floating numerals, `inf`/`infinity`, `nan`, `nan(n-char-sequence)`, all
+case-insensitive), its exact rational value, and round-to-nearest-even to binary64 (and from
+binary64 to binary32 for `float` targets, as the C assignment does).  The rounding algorithm below
+is **proved** to deliver the correctly rounded value and the `ERANGE` rule of `Spec/Ieee.lean`
+(`Proofs/Ieee.lean`).
 
 Longest-prefix rules: an exponent part counts only if at least one digit follows (`"1e+"` is `"1"`
 followed by `"e+"`); `"0x"` without a hexadecimal mantissa is the decimal numeral `"0"` followed by
 `"x…"`; `"nan("` without a closing parenthesis is `"nan"`.
 
-Overflow gives ±inf with `ERANGE`; a subnormal-or-zero result that is inexact gives `ERANGE` as
-well (glibc); exact subnormals do not.  The generators stay away from the subnormal boundary.
+Overflow gives ±inf with `ERANGE`; an inexact result that is tiny gives `ERANGE` as well, tininess
+being detected after rounding as glibc does on x86 (`round_and_return` in `stdlib/strtod_l.c`,
+`TININESS_AFTER_ROUNDING`): the value rounded to 53 bits *as if the exponent range were unbounded* is
+below `2^-1022`.  So `0x0.fffffffffffffbp-1022` (→ `2^-1022`) reports `ERANGE` and
+`0x0.fffffffffffffcp-1022` (→ `2^-1022`) does not.
 -/
 namespace Percival.Model.Strtod
 open Percival.Spec.Numeral Percival.Spec.Parsenum Percival.Model.Strto
 open Percival.Spec.FloatNumeral (lower isNChar Subject ratPow)
-
-/-- a floating-point datum: `fin neg q` is `(-1)^neg · q` with `q ≥ 0` (so `fin true 0` is -0.0) -/
-inductive Fl
-  | nan
-  | inf (neg : Bool)
-  | fin (neg : Bool) (q : Rat)
-  deriving Repr, DecidableEq
-
-/-- the value of a finite datum -/
-def Fl.signed (neg : Bool) (q : Rat) : Rat := if neg then -q else q
-
-/-- IEEE `a < b` (false if either is NaN; -0 = +0) -/
-def Fl.lt : Fl → Fl → Bool
-  | .nan, _ => false
-  | _, .nan => false
-  | .inf n1, .inf n2 => n1 && !n2
-  | .inf n1, .fin _ _ => n1
-  | .fin _ _, .inf n2 => !n2
-  | .fin n1 q1, .fin n2 q2 => decide (Fl.signed n1 q1 < Fl.signed n2 q2)
-
-/-- format parameters: precision, exponent of the least significant bit of the smallest
-    subnormal, exponent of the lsb of the largest finite number -/
-structure Fmt where
-  p : Nat
-  emin : Int
-  emax : Int
-
-def binary64 : Fmt := { p := 53, emin := -1074, emax := 971 }
-def binary32 : Fmt := { p := 24, emin := -149, emax := 104 }
+open Percival.Spec.Ieee (Fl Format binary32 binary64)
 
 /-- `n / (d·2^e)` as a fraction of naturals -/
 def scaled (n d : Nat) (e : Int) : Nat × Nat :=
   if e ≥ 0 then (n, d * 2 ^ e.toNat) else (n * 2 ^ (-e).toNat, d)
 
+/-- `N / D` (`D > 0`) rounded to the nearest integer, ties to even; was it inexact? -/
+def divRound (N D : Nat) : Nat × Bool :=
+  let q := N / D
+  let r := N % D
+  (if 2 * r > D ∨ (2 * r = D ∧ q % 2 = 1) then q + 1 else q, r ≠ 0)
+
 structure Rounded where
   m : Nat            -- significand, `< 2^p`
   e : Int            -- value = m · 2^e
   inexact : Bool
+  tiny : Bool        -- tiny after rounding (see below)
   deriving Repr
 
-/-- round the positive rational `n/d` (`n, d > 0`) to nearest, ties to even, in format `f`
-    with gradual underflow; the result may exceed `emax` (overflow is the caller's business) -/
-def roundPos (f : Fmt) (n d : Nat) : Option Rounded :=
-  if n = 0 ∨ d = 0 then none else
+/-- the exponent `e0` with `2^(p-1) ≤ (n/d) / 2^e0 < 2^p` (`n, d > 0`): `p` significant bits before the point -/
+def normExp (f : Format) (n d : Nat) : Int :=
   let l : Int := (Nat.log2 n : Int) - (Nat.log2 d : Int) - ((f.p : Int) - 1)
-  -- n/d / 2^l lies in (2^(p-2), 2^p); make it lie in [2^(p-1), 2^p)
-  let (N0, D0) := scaled n d l
-  let e0 := if N0 < D0 * 2 ^ (f.p - 1) then l - 1 else l
-  let e := if e0 < f.emin then f.emin else e0
-  let (N, D) := scaled n d e
-  if D = 0 then none else
-  let q := N / D
-  let r := N % D
-  let q' := if 2 * r > D ∨ (2 * r = D ∧ q % 2 = 1) then q + 1 else q
-  if q' = 2 ^ f.p then some { m := 2 ^ (f.p - 1), e := e + 1, inexact := r ≠ 0 }
-  else some { m := q', e := e, inexact := r ≠ 0 }
+  -- n/d / 2^l lies in (2^(p-2), 2^p)
+  let s := scaled n d l
+  if s.1 < s.2 * 2 ^ (f.p - 1) then l - 1 else l
+
+/-- `(n/d) / 2^e` rounded to the nearest integer, ties to even; was it inexact? -/
+def roundAt (n d : Nat) (e : Int) : Option (Nat × Bool) :=
+  let s := scaled n d e
+  if s.2 = 0 then none else some (divRound s.1 s.2)
+
+/-- round the positive rational `n/d` (`n, d > 0`) to nearest, ties to even, in format `f`
+    with gradual underflow; the result may exceed `qmax` (overflow is the caller's business) -/
+def roundPos (f : Format) (n d : Nat) : Option Rounded :=
+  if n = 0 ∨ d = 0 then none else
+  let e0 := normExp f n d
+  -- gradual underflow: the exponent does not go below `qmin`
+  let e := if e0 < f.qmin then f.qmin else e0
+  -- `roundAt n d e0`: as if the exponent range were unbounded, `p` significant bits
+  match roundAt n d e0, roundAt n d e with
+  | some (mu, _), some (m, inexact) =>
+    -- tiny after rounding: `mu · 2^e0 < 2^(p-1) · 2^qmin`, the smallest normal number
+    let tiny := decide (e0 < f.qmin ∧ ¬ (e0 + 1 = f.qmin ∧ mu = 2 ^ f.p))
+    if m = 2 ^ f.p then some { m := 2 ^ (f.p - 1), e := e + 1, inexact, tiny }
+    else some { m, e, inexact, tiny }
+  | _, _ => none            -- not reached: d > 0
 
 def pow2 (e : Int) : Rat := if e ≥ 0 then ((2 ^ e.toNat : Nat) : Rat) else 1 / ((2 ^ (-e).toNat : Nat) : Rat)
 
 /-- round a non-negative rational into format `f`: (datum, overflowed, tiny-and-inexact) -/
-def roundTo (f : Fmt) (neg : Bool) (q : Rat) : Fl × Bool × Bool :=
+def roundTo (f : Format) (neg : Bool) (q : Rat) : Fl × Bool × Bool :=
   if q.num ≤ 0 then (.fin neg 0, false, false) else
   match roundPos f q.num.toNat q.den with
   | none => (.fin neg 0, false, false)            -- not reached: num, den > 0
   | some r =>
-    if r.e > f.emax then (.inf neg, true, false)
-    else (.fin neg ((r.m : Rat) * pow2 r.e), false, r.inexact && r.m < 2 ^ (f.p - 1))
+    if r.e > f.qmax then (.inf neg, true, false)
+    else (.fin neg ((r.m : Rat) * pow2 r.e), false, r.inexact && r.tiny)
 
 /-- `(float)d` for a binary64 datum `d`, kept as a datum -/
 def toBinary32 : Fl → Fl
